@@ -191,6 +191,36 @@ def run(ctx):
                                "low32_pair": [p_.decode() for p_ in pair] if pair else None},
                                summary=f"MutableVocab on {len(vw)} words (incl. {pair[0].decode() if pair else '-'} and {pair[1].decode() if pair else '-'}, whose 64-bit hashes differ only in the high 32 bits): "
                                        f"answer {k} is {gl[k] if k < len(gl) else None}, a vocabulary gives {wl[k] if k < len(wl) else None}")
+    # the same class against its Lean model (PV.MVocab over the table model; theorems mvocab_refines / mvocab_strings_attached) and the model
+    # against the first-occurrence specification: random word lists with many repeats, words of every length 1..40 (all tail lengths of the
+    # hash), and the empty word, whose hash is 0: model and implementation must agree on it too (both answer kUNK; the specification and the
+    # theorems exclude key 0, as C13 does)
+    mlines = []
+    for it in range(40 if ctx.tier == "quick" else 400):
+        n = rng.randrange(0, 80)
+        base_ws = [bytes(rng.choice(b"abc\xc3\xa9 \x00\xff") for _ in range(rng.randrange(1, 6))) for _ in range(rng.randrange(1, 30))]
+        ws_ = [rng.choice(base_ws) if rng.random() < 0.8 else b"z" * rng.randrange(1, 41) for _ in range(n)]
+        if it % 5 == 0:
+            ws_.insert(rng.randrange(0, len(ws_) + 1), b"")
+        mlines.append("mvocab.run " + " ".join(hx(w_) for w_ in ws_))
+    ia = pvlib.run_lines(ctx.impl(), mlines, env=pvlib.san_env())
+    ma = pvlib.run_lines(pvlib.PVDRIVER, mlines)
+    sa = pvlib.run_lines(pvlib.PVDRIVER, [l.replace("mvocab.run", "mvocab.spec.run", 1) for l in mlines])
+    ctx.count("mvocab.model", len(mlines), mlines)
+    for l, xi, xm, xs in zip(mlines, ia, ma, sa):
+        has_empty = " - " in l + " "
+        if xi != xm:
+            if not has_empty and xm == xs:
+                pvlib.report_violation(ctx, "mvocab:" + l[:80], {"ops": [l], "impl": xi[:600], "want": xs[:600]},
+                                       summary=f"MutableVocab on {len(l.split()) - 1} words: {xi[:100]}; a vocabulary (first-occurrence ids) gives {xs[:100]}")
+            else:
+                pvlib.report_violation(ctx, "corr:mvocab", {"ops": [l], "impl": xi[:600], "model": xm[:600], "correspondence": "PV.MVocab vs util::MutableVocab"},
+                                       no_input=True, summary=f"MutableVocab model/impl differ: impl {xi[:100]} model {xm[:100]}")
+            break
+        if not has_empty and xm != xs:
+            pvlib.report_violation(ctx, "corr:mvocab-spec", {"ops": [l], "model": xm[:600], "spec": xs[:600], "correspondence": "PV.MVocab vs its specification (theorem insertAll_refines)"},
+                                   no_input=True, summary="MutableVocab model and specification differ")
+            break
     # bin/substitute = VALUES in the table entries, written through the iterator FindOrInsert returns: the first line of every
     # sentence pair is copied and its 5th field remembered; every later line with the same pair is printed with the remembered
     # field.  Small cases through the Lean model and its table-free specification (theorem substitute_refines); a large one
